@@ -20,7 +20,9 @@ type Family struct {
 
 func Families() []Family {
 	return []Family{
-		{"kv", [][]string{{"set", "t:k", "1"}, {"append", "t:k", "x"}, {"setrange", "t:k", "2", "yy"}, {"incr", "t:k"}, {"setnx", "t:j", "n"}, {"getset", "t:k", "7"}, {"mset", "t:k", "a", "t:j", "b"}, {"del", "t:k", "t:j"}},
+		{"kv", [][]string{{"set", "t:k", "1"}, {"append", "t:k", "x"}, {"setrange", "t:k", "2", "yy"}, {"incr", "t:k"}, {"setnx", "t:j", "n"}, {"getset", "t:k", "7"}, {"mset", "t:k", "a", "t:j", "b"}, {"del", "t:k", "t:j"},
+			// refused in apply at its second key (no table prefix) after the first one was staged
+			{"mset", "t:j", "p", "nokey", "q"}},
 			[][]string{{"get", "t:k"}, {"get", "t:j"}, {"ttl", "t:k"}}},
 		// the commands that share one write batch (set, setex, del, hmset), colliding on the first and on a later key
 		// ... and one that passes the leader's validation but fails in apply (the batch is aborted in the middle)
@@ -68,16 +70,25 @@ type runResult struct {
 }
 
 func execLog(s *storemc.Store, fam Family, log [][]string, ts func(int) int64, chunks uint, replaying bool, clockOff int64, readClock int64) runResult {
+	return execLogRestart(s, fam, log, ts, chunks, replaying, clockOff, readClock, -1)
+}
+
+// execLogRestart: as execLog; after entry restartAfter (a batch boundary) the replica is restarted: what the engine
+// holds is kept, everything the process held in memory (open write batch, caches, index and expiry bookkeeping) is
+// dropped (dump, CleanData = close and reopen the engine, load the dump), and the rest of the log is applied with
+// the replaying flag as given.
+func execLogRestart(s *storemc.Store, fam Family, log [][]string, ts func(int) int64, chunks uint, replaying bool, clockOff int64, readClock int64, restartAfter int) runResult {
 	s.Reset()
 	SetClock(clockOff, 123456789)
 	var res runResult
 	// chunks bit k set = a batch boundary after entry k
 	var batch []storemc.Entry
+	restarted := false
 	flush := func() {
 		if len(batch) == 0 {
 			return
 		}
-		for _, rs := range s.ApplyEntries(batch, replaying) {
+		for _, rs := range s.ApplyEntries(batch, replaying && (restartAfter < 0 || restarted)) {
 			for _, r := range rs {
 				res.replies = append(res.replies, r.String())
 			}
@@ -86,8 +97,14 @@ func execLog(s *storemc.Store, fam Family, log [][]string, ts func(int) int64, c
 	}
 	for k, c := range log {
 		batch = append(batch, storemc.Entry{Ts: T0*1e9 + ts(k), Cmds: [][]string{c}})
-		if chunks&(1<<uint(k)) != 0 {
+		if chunks&(1<<uint(k)) != 0 || k == restartAfter {
 			flush()
+		}
+		if k == restartAfter {
+			d := s.Dump()
+			s.Reset()
+			s.Load(d)
+			restarted = true
 		}
 	}
 	flush()
@@ -169,6 +186,27 @@ func RunDeterminism(col *ev.Collector, engines []string, polName string, pol com
 				for _, readClock := range readClocks {
 					ref := execLog(stores[engines[0]][true], fam, log, ts, ^uint(0), false, 0, readClock)
 					st.Runs++
+					// restarted between entry k and k+1 (the tail applied live or as a replay); the HyperLogLog family is
+					// left out: its write cache reaches the engine at a graceful close or a checkpoint only (C06/C14)
+					for k := 0; k+1 < n && fam.Name != "hll"; k++ {
+						for _, replaying := range []bool{false, true} {
+							for _, chunks := range []uint{^uint(0), 1 << uint(n-1)} {
+								got := execLogRestart(stores[engines[0]][true], fam, log, ts, chunks, replaying, 0, readClock, k)
+								st.Runs++
+								vdesc := fmt.Sprintf("engine=%s batches=%b restart-after-entry=%d tail-replaying=%v", engines[0], chunks&(1<<uint(n)-1), k, replaying)
+								replay := map[string]interface{}{"family": fam.Name, "log": log, "timestamps": tsName, "variation": vdesc, "policy": polName, "read_clock": readClock}
+								if strings.Join(got.replies, "|") != strings.Join(ref.replies, "|") {
+									report(fam.Name+"|replies|restart", fmt.Sprintf("log %v (timestamps %s): replies %v under {%s}, canonical run answered %v", log, tsName, got.replies, vdesc, ref.replies), replay)
+								}
+								if got.view != ref.view {
+									report(fam.Name+"|data|restart", fmt.Sprintf("log %v (timestamps %s), read at clock %d: data {%s} under {%s}, canonical run holds {%s}", log, tsName, readClock, got.view, vdesc, ref.view), replay)
+								}
+								if got.physical != ref.physical {
+									report(fam.Name+"|stored-bytes|restart", fmt.Sprintf("log %v (timestamps %s): stored bytes differ under {%s} although the same log was applied", log, tsName, vdesc), replay)
+								}
+							}
+						}
+					}
 					for _, eng := range engines {
 						var engRef *runResult
 						for chunks := uint(0); chunks < 1<<uint(n-1); chunks++ {
